@@ -51,6 +51,8 @@ def cases(tier, rng, boost=1):
         idx[0][:ns] = list(range(ns))
         yield dict(c01._mk(idx, 1, form=dt, src='corpus', cls='zero'), sub='C01')
         yield dict(c01._mk([[x + 1 for x in t] for t in idx], 2, form=dt, src='corpus', cls='one'), sub='C01')
+    brng = core.Rng(5)
+    yield dict(c01._mk([[brng.randrange(3) for _ in range(40000)] for _ in range(16)], 1, src='corpus', cls='zero'), sub='C01')
     for sid, mod in SUB.items():
         sub_rng = core.Rng(rng.randrange(1 << 30))
         for c in _take(mod.cases('quick', sub_rng, 1), BUDGET[sid] * mult, sub_rng):
